@@ -253,7 +253,7 @@ impl Stream for TokenStreams
 	}
 	fn count(&self, tier: Tier) -> u64
 	{
-		tier.pick(20_000, 1_500_000)
+		tier.pick(300_000, 1_500_000)
 	}
 	fn choice_len(&self) -> usize
 	{
@@ -296,7 +296,7 @@ impl Stream for Malformed
 	}
 	fn count(&self, tier: Tier) -> u64
 	{
-		tier.pick(6_000, 300_000)
+		tier.pick(100_000, 300_000)
 	}
 	fn choice_len(&self) -> usize
 	{
